@@ -37,7 +37,7 @@ def twin_history(ctx, r, n_cmds, legacy=False, torn=False):
                 before = A.graph()
                 if torn and r.p(50):
                     ready = oracles.ready_order(before["graph"], "") if "graph" in before else []
-                    if ready and r.p(50) and A.log_bytes().endswith(b"\n"):
+                    if ready and r.p(50) and A.log_bytes().endswith(b"\n") and B.log_bytes().endswith(b"\n"):
                         # a `claim` killed inside its write: the claim line is whole, the state line that follows is cut — the task is todo and
                         # carries a claimant (readers show it that way; whatever compact writes must show the same)
                         ts = "2026-01-01T00:00:00Z"
@@ -47,7 +47,7 @@ def twin_history(ctx, r, n_cmds, legacy=False, torn=False):
                             with open(S.log_path(), "ab") as f:
                                 f.write(blob.encode())
                         trace.insert(len(trace) - 1, {"edit": "lines appended to the log: a claim of %s whose write was cut inside the state line that follows (no newline)" % ready[0], "bytes": blob})
-                    else:
+                    elif A.log_bytes().endswith(b"\n"):
                         frag = b'{"type":"state","ts":"2026-01-01T00:00:00Z","data":{"id":"X'
                         with open(A.log_path(), "ab") as f:
                             f.write(frag)   # a crash-torn tail
@@ -98,6 +98,53 @@ def twin_history(ctx, r, n_cmds, legacy=False, torn=False):
         A.close(); B.close()
 
 
+def legacy_format(ctx, r):
+    """a log in the legacy format — creation events without a title, the title being derived from the body when the log is read — under the legacy
+    file name, with later body/state/claim events: compact must leave every observable as it was, and compacting again must change nothing"""
+    st = cmdrun.Store(ctx.ergo, ctx.go, legacy=True)
+    try:
+        bodies = ["Title line\n\nrest of the body", "# heading\nmore", "only one line", "  padded first line  \nsecond", "\n\nblank lines first\nthen text", "é wide 日本 title\nbody",
+                  "x" * 300 + "\nlong first line", "line one\r\nline two"]
+        ts = lambda k: "2024-01-01T00:%02d:%02dZ" % (k // 60, k % 60)
+        lines, ids, k = [], [], 1
+        lines.append({"type": "new_epic", "ts": ts(k), "data": {"id": "EEEEEE", "uuid": "u-e", "epic_id": "", "state": "todo", "body": r.pick(bodies), "created_at": ts(k)}})
+        for i in range(2 + r.n(4)):
+            k += 1
+            tid = "T%05d" % i
+            ids.append(tid)
+            lines.append({"type": "new_task", "ts": ts(k), "data": {"id": tid, "uuid": "u-%d" % i, "epic_id": r.pick(["", "EEEEEE"]), "state": "todo", "body": r.pick(bodies), "created_at": ts(k)}})
+        for _ in range(r.n(5)):
+            k += 1
+            tid = r.pick(ids)
+            kind = r.pick(["body", "state", "claim", "title"])
+            if kind == "body": lines.append({"type": "body", "ts": ts(k), "data": {"id": tid, "body": r.pick(bodies), "ts": ts(k)}})
+            elif kind == "title": lines.append({"type": "title", "ts": ts(k), "data": {"id": tid, "title": "an explicit title", "ts": ts(k)}})
+            elif kind == "state": lines.append({"type": "state", "ts": ts(k), "data": {"id": tid, "state": r.pick(["blocked", "done", "canceled"]), "ts": ts(k)}})
+            else:
+                lines += [{"type": "claim", "ts": ts(k), "data": {"id": tid, "agent_id": "ag", "ts": ts(k)}}, {"type": "state", "ts": ts(k), "data": {"id": tid, "state": "doing", "ts": ts(k)}}]
+        blob = "".join(json.dumps(l, separators=(",", ":")) + "\n" for l in lines)
+        with open(st.log_path(), "w") as f:
+            f.write(blob)
+        trace = [{"store": "legacy log name events.jsonl"}, {"edit": "lines appended to the log: a hand-written log in the legacy format (no titles: they are derived from the bodies)", "bytes": blob}]
+        before = st.graph()
+        if "err" in before:
+            ctx.violation("C05 store unreadable", "a legacy-format log does not load: %s" % before["err"][:200], {"trace": trace}); return
+        for n in (1, 2):
+            res = st.exec(["--json", "compact"])
+            trace.append({"argv": ["--json", "compact"], "stdin": None})
+            after = st.graph()
+            ctx.count(1, key=("legacy-format", n, len(ids)))
+            if res["exit"] != 0 or "err" in after:
+                ctx.violation("C05 compact failed", "compact on a legacy-format log exits %s: %s" % (res["exit"], (res["stderr"] or after.get("err", ""))[:200]), {"trace": trace}); return
+            if oracles.obs_graph(before["graph"]) != oracles.obs_graph(after["graph"]) or oracles.ready_order(before["graph"]) != oracles.ready_order(after["graph"]):
+                ctx.violation("C05 compact changed an observable", "legacy-format log, compaction %d: %s" % (n, fndiff.first_difference(oracles.obs_graph(before["graph"]), oracles.obs_graph(after["graph"]))), {"trace": trace}); return
+            if n == 2 and after["events"] != prev_events:
+                ctx.violation("C05 compact not idempotent", "second compact of a legacy-format log changed the log: %s" % fndiff.first_difference(prev_events, after["events"]), {"trace": trace}); return
+            prev_events = after["events"]
+    finally:
+        st.close()
+
+
 def run(ctx):
     res = fndiff.run_stream(ctx.ev, ["fn-replay", str(ctx.seed + 500), "2000" if ctx.quick else "30000"])
     ctx.tie("T2-fn replay/compactEvents", cases=res["cases"], classes=res["classes"], disagreements=len(res["diffs"]))
@@ -108,6 +155,8 @@ def run(ctx):
     n = 14 if ctx.quick else 250
     for h in range(n):
         twin_history(ctx, r.fork(), 40, legacy=(h % 5 == 4), torn=(h % 3 == 2))
+    for i in range(4 if ctx.quick else 60):
+        legacy_format(ctx, r.fork())
     # compact against a concurrent writer: what it writes must be the collapse of the log as it is *under its lock* — a writer that commits
     # between compact's read and its rewrite must not be undone (two-process schedules, compact parked before / inside / after its lock section)
     for i in range(2 if ctx.quick else 30):
